@@ -11,6 +11,16 @@ def hexOfBytes (bs : List UInt8) : String :=
   if bs.isEmpty then "-" else
   String.ofList (bs.foldr (fun b acc => hexDigit (b.toNat / 16) :: hexDigit (b.toNat % 16) :: acc) [])
 
+/-- FNV-1a (64 bit) of a byte array, for comparing large outputs. -/
+def fnv64 (a : Array UInt8) : UInt64 :=
+  a.foldl (fun h b => (h ^^^ b.toUInt64) * 1099511628211) 14695981039346656037
+
+/-- printable summary of an output: the bytes themselves when short, otherwise the
+    first 64 bytes, the length and a hash. -/
+def outSummary (a : Array UInt8) : String :=
+  if a.size ≤ 4096 then hexOfBytes a.toList
+  else s!"{hexOfBytes (a.extract 0 64).toList}..{a.size}..{(fnv64 a).toNat}"
+
 def hexVal (c : Char) : Option Nat :=
   if '0' ≤ c ∧ c ≤ '9' then some (c.toNat - 48)
   else if 'a' ≤ c ∧ c ≤ 'f' then some (c.toNat - 87)
